@@ -191,6 +191,10 @@ def corpus():
     out.append(mk(cfgN, [A(0, 0), A(1, 1, ('plain', False, None)), A(1, 1, ('plain', False, None)), R(0, 0)], [('close', 0, 'ki')]))
     out.append(mk(cfgN, [A(0, 0), R(0, 0), A(1, 1)], [('unlock', 0, 'ki')]))
     out.append(mk(cfgR, base, [('close', n['close'], 'ki')]))
+    # F9 (fixed by ad374ce): an interrupt out of flock itself must not leave the just-opened descriptor behind
+    out.append(mk(cfgN, [A(0, 0), A(1, 1, ('plain', True, TSMALL)), R(0, 0), A(1, 1)], [('lock', 1, 'ki')]))
+    out.append(mk(cfgN, [A(0, 0), R(0, 0), A(1, 1)], [('lock', 0, 'ki')]))
+    out.append(mk(cfgN, [A(0, 0, ('with', True, None)), R(0, 0), A(1, 1)], [('open', 0, 'ki')]))
     return out
 
 
@@ -199,9 +203,8 @@ def _fault_cases(args):
     n = _counts(mk(cfg, ops))
     sites = [(k, i) for k in ('open', 'lock', 'unlock', 'close') for i in range(n[k])]
     out = [mk(cfg, ops, [s]) for s in sites]
-    # the same fault as a BaseException that is not an Exception (KeyboardInterrupt flavour) where the
-    # library handles both alike: unlock / close
-    out += [mk(cfg, ops, [(k, i, 'ki')]) for k, i in sites if k in ('unlock', 'close')]
+    # the same fault in the interrupt flavour (a BaseException that is not an Exception: KeyboardInterrupt)
+    out += [mk(cfg, ops, [(k, i, 'ki')]) for k, i in sites]
     if n_double and len(sites) >= 2:
         rnd = random.Random(double_seed)
         pairs = list(itertools.combinations(sites, 2))
@@ -277,7 +280,7 @@ def gen_random(tier, seed):
             for _ in range(rnd.randint(1, 2)):
                 k = rnd.choice(['open', 'lock', 'unlock', 'close'])
                 f = (k, rnd.randint(0, 3 * L))
-                if k in ('unlock', 'close') and rnd.random() < 0.4:
+                if rnd.random() < 0.4:
                     f = f + ('ki',)
                 faults.append(f)
         out.append(mk(cfg, ops, sorted(set(faults))))
